@@ -22,6 +22,15 @@ def view(o):
     return v
 
 
+def norm(x):
+    """msgpack stores tuples and lists alike as arrays (assumed codec behaviour): compare up to that"""
+    if isinstance(x, (list, tuple)):
+        return [norm(y) for y in x]
+    if isinstance(x, dict):
+        return {k: norm(v) for k, v in x.items()}
+    return x
+
+
 def diff(a, b, v1=False):
     out = []
     for k in a:
@@ -37,7 +46,7 @@ def diff(a, b, v1=False):
                 out.append("bonds differ")
         elif k == "attrib" and v1:
             continue
-        elif x != y:
+        elif norm(x) != norm(y):
             out.append(f"{k}: {x!r} != {y!r}")
     return out
 
@@ -77,18 +86,29 @@ if w.get("op") == "collection-reads":
         sys.exit(0)
     print("not reproduced")
     sys.exit(1)
+def falsy_mol():
+    """every stored value that python counts as false: type/stereo/geometry Unknown (0), empty label, zero order, empty dicts"""
+    m = ml.Molecule(name="falsy", charge=0, mult=1)
+    a = ml.Atom("C", label="", atype=ml.AtomType.Unknown, stereo=ml.AtomStereo.Unknown, geom=ml.AtomGeom.Unknown, formal_charge=0, formal_spin=0)
+    b = ml.Atom("O", label="", atype=ml.AtomType.Unknown)
+    m.add_atom(a, [0.0, 0.0, 0.0], 0.0)
+    m.add_atom(b, [0.0, 0.0, 0.0], 0.0)
+    m.connect(0, 1, label="", btype=ml.BondType.Unknown, stereo=ml.BondStereo.Unknown, f_order=0.0)
+    return m
+
+
 kind = "ens" if "ens" in (w.get("op") or "") else "mol"
 ver = 1 if "v1" in (w.get("op") or "") else 2
 objs = []
 if kind == "mol":
-    objs = [ml.Molecule(), sample_mol()]
+    objs = [ml.Molecule(), sample_mol(), falsy_mol()]
 else:
     m = sample_mol()
     e = ml.ConformerEnsemble(m, n_conformers=3)
     e.coords = np.arange(18, dtype=float).reshape(3, 2, 3)
     e.atomic_charges = np.arange(6, dtype=float).reshape(3, 2) / 10
     e.weights = [0.5, 0.25, 0.25]
-    objs = [ml.ConformerEnsemble(), ml.ConformerEnsemble(m), e]
+    objs = [ml.ConformerEnsemble(), ml.ConformerEnsemble(m), e, ml.ConformerEnsemble(falsy_mol(), n_conformers=1)]
 for i, o in enumerate(objs):
     try:
         if ver == 2:
